@@ -572,6 +572,11 @@ class QsModel:
         self._observe_ttl()
         if kind == "watchdog":
             self.after_watchdog(now)
+        elif kind.startswith("other:"):
+            # a housekeeping function the simulator does not know by name: whatever it timed out or
+            # dropped is taken from the server's table (never before the deadline / the time-to-live)
+            self._reconcile_timeouts()
+            self.after_watchdog(now)
 
     def after_watchdog(self, now):
         """Runs in the same atomic step as the watchdog tick: resolve TTL drops by looking
